@@ -24,7 +24,7 @@
 use crate::{
     error::{Error, ErrorExt, ErrorImpl, ErrorKind},
     flags::{OpenFlags, ResolverFlags},
-    resolvers::procfs::ProcfsResolver,
+    resolvers::procfs::{check_procfs_oflags, ProcfsResolver},
     syscalls,
     utils::{self, FdExt},
 };
@@ -358,6 +358,12 @@ impl ProcfsHandle {
     ) -> Result<File, Error> {
         let subpath = subpath.as_ref();
         let mut oflags = oflags.into();
+
+        // The final open of a magic-link does not go through the resolver, so
+        // the creation flags it refuses have to be refused here as well --
+        // otherwise O_CREAT or O_TMPFILE would be applied to whatever the
+        // magic-link points to (this is also what Handle::reopen uses).
+        check_procfs_oflags(oflags)?;
 
         // Drop any trailing /-es.
         let (subpath, trailing_slash) = utils::path_strip_trailing_slash(subpath);
